@@ -6,6 +6,20 @@ HERE = os.path.dirname(os.path.dirname(os.path.abspath(__file__)))
 PROPS = [json.loads(l)['id'] for l in open(os.path.join(HERE, 'properties.jsonl'))]
 
 CHECKS = {
+ 'C20': dict(category='proof', design_ref='DESIGN.md section 4 (C20)',
+    text='lines_for_tab is proved (loop invariant over the real generator loop, concatenation model with offset function, lemmas) to '
+         'yield, for every line list of any length and every tab selector, exactly the lines the statement describes: with t(i) the '
+         'number of separator lines before line i, the non-separator lines with t(i) == tab (all lines, separators included, when no '
+         'tab is selected). For process_includes, obligations on all control paths of the real loop body (dataflow events) establish: '
+         'a non-include line is yielded unchanged and nothing else happens; an include line is never yielded; the only other '
+         'yields are the lines of lines_for_tab(<fresh cart loaded from the target with do_includes=False>.lua.to_lines(), tab) or of '
+         'the opened .lua file; the tab selector is the number after ":"; a missing target raises P8IncludeNotFound before anything '
+         'is opened. What the two regular expressions accept is a REG/GROUND fact.',
+    note='The composition "output == concatenation of expand(line)" follows from the per-iteration obligations (SHAPE: syntactic / '
+         'dataflow, not a solver proof). Lines and the separator test are abstract in the lines_for_tab proof. A bounded native run '
+         '(every position, every target kind, tab selectors 0..tabs+1, repeated targets, missing targets) compares with a reference '
+         'splice and serves as replay.',
+    technique='contract-based deductive verification (loop invariant + concatenation model for lines_for_tab; pyvc VCs, z3) + dataflow obligations on all enumerated control paths of process_includes'),
  'C12': dict(category='proof', design_ref='DESIGN.md section 4 (C12)',
     text='The guards that dominate every open()/os.path.isfile() of #include and require() are read from the real source (all '
          'control paths, with assignment and branch events) on every run. #include: on each of the paths to a file access in '
